@@ -22,14 +22,14 @@ CLAIMED = {
             'payloads of symbolic length (CRC form and AEAD form); packing is executed from an arbitrary queue with a '
             'symbolic MTU (512..1500): every datagram is proven <= MTU-28, messages that fit together are proven to '
             'leave together, and construction is proven never to raise or lose messages, including 255/256/300 tiny '
-            'messages per tick.',
+            'messages per tick; whatever send() queues for a payload of any length is admitted by the packer for every MTU (the queue drains, L9.6).',
             'Trusted: sx engine, struct/crc/AEAD models (crc32 uninterpreted, AEAD ideal). Bounds: <= 3 (thorough 6) '
             'messages per packet in the codec round trip, queue <= 3 new + 2 resend messages (thorough 4+2) in the MTU lemma, '
             'tiny-message instances n in {2,255,256,300} (thorough up to 600); payload lengths free within the stated ranges.',
             'DESIGN.md §6 C09'),
     'C06': ('The real send()/FragmentSender.build is executed on an opaque payload of symbolic length with a symbolic MTU: '
             'the queued fragment bodies are proven (rope equality) to concatenate to the payload, each to fit a datagram, '
-            'payloads up to the limit to stay unfragmented and payloads above the fragmentation limit to be refused. '
+            'payloads up to the limit to stay unfragmented, payloads above the fragmentation limit to be refused and a payload of exactly the limit to be accepted (limit neighbourhood with MAX_FRAGMENTS lowered to 3/8 for the unrolling); the MTU is set after an optional earlier setMTU call. '
             'One reassembly step of the real _recvAppFragment from an arbitrary receiver context proves slot-written-once, '
             'completion <=> all slots filled, delivered payload == concatenation, other ids untouched (hence order and '
             'duplicate independence for histories of any length); an end-to-end scenario feeds the real sender\'s fragments '
@@ -43,14 +43,14 @@ CLAIMED = {
             'independently written RFC 6455 layout for every flag combination, opcode, mask bit, masking key and payload '
             'length 0..2^63-1, and parsed back by the real readHeader/readDataHeader; unmasking is proven per byte; '
             'k masked client frames cut at symbolic positions are fed through the real WebSocketTemporaryHandler and '
-            'proven to be delivered once each, in order, unmasked, without exceptions; frames with a 16-bit or 64-bit extended length cut inside their header neither raise nor deliver early.',
+            'proven to be delivered once each, in order, unmasked, without exceptions; frames with a 16-bit or 64-bit extended length cut inside their header neither raise nor deliver early; the application may close the websocket from inside a callback at any frame, later frames are still delivered; handler.send(text)/close() each write exactly one RFC frame (L18.6).',
             'Trusted: sx engine, struct model. Bounds: header codec unbounded in the length value; masking payload <= 8 '
             '(thorough 12) symbolic bytes; segmentation k <= 2 frames, payload <= 2 bytes, <= 2 cuts (thorough k <= 3, <= 3 bytes, '
             '<= 2 cuts) - payload content is irrelevant to framing, only boundaries matter. Continuation frames are not '
             'implemented by the library and not in the statement.',
             'DESIGN.md §6 C18'),
-    'C20': ('Finite domain, decided exhaustively: every sequence of <= 4 (thorough 5) operations from a 9-letter alphabet '
-            '(register/unregister of three resources with class and string annotations, one of them conflicting; dispatch of '
+    'C20': ('Finite domain, decided exhaustively: every sequence of <= 4 (thorough 5) operations from an 11-letter alphabet '
+            '(register/unregister of four resource objects: class and string annotations, one conflicting class, two instances of one class; dispatch of '
             'three message classes) is executed on the real dispatcher classes (both server and client variants) and compared '
             'with a reference map: exactly the registered handler is called once with the argument objects unchanged, unknown '
             'classes raise DispatchError and call nothing, duplicate registration is refused, unregister removes exactly the '
@@ -64,7 +64,7 @@ CLAIMED = {
             'node into a z3 regular-expression term; two language inclusions over an unbounded symbolic path are decided per '
             'pattern: must(p) <= L(regex) and, with capture groups bracketed by marker characters, L(regex<>) <= may<>(p), so '
             'both the match set and every possible binding are covered. Route selection runs the real getRoute/dispatch with '
-            'pattern matching answered by the solver: first registered matching route of the method, else None/404.',
+            'pattern matching answered by the solver: first registered matching route of the method, else None/404, also when the routes are registered in two batches with a request in between.',
             'Trusted: z3 sequence/regex theory, the sre->z3 translation (only the constructs the router emits; anything else is '
             'Unsupported = inconclusive), Python re implementing its own parse tree. Bounds: patterns <= 3 (thorough 4) segments over '
             '{a, ab, a.b, :x} + one trailing ? / + / * parameter; route tables <= 2 (thorough 3) routes; the path is unbounded but '
@@ -77,7 +77,7 @@ CLAIMED = {
             '(so "..", ".", drive-like prefixes, unicode and any length are all instances); os.path.join/abspath/normpath are '
             'CPython\'s own pure-Python posixpath bodies read from the stdlib at run time and executed by the same engine; root '
             '(absolute, relative, "/", with/without trailing separator) and cwd are symbolic too. On every path the result is '
-            'proven to be ValueError or a normalised absolute path that equals the resolved root or starts with root + "/".',
+            'proven to be ValueError or a normalised absolute path that equals the resolved root or starts with root + "/". Library calls on the name are executed on the rope too (str.replace/split, urllib.parse.unquote through a solver-backed model with <= 2 escapes per path, ASCII).',
             'Trusted: sx engine, text-rope operations (structural, falling back to z3 string theory), posixpath.py as the '
             'specification of os.path on POSIX (the C accelerator _path_normpath is assumed equivalent to the pure-Python fallback '
             'it replaces). Bounds: name <= 4 (thorough 6) separators; root <= 1 (thorough 2) separators; cwd depth <= 1 (2). '
@@ -86,7 +86,7 @@ CLAIMED = {
     'C19': ('Data flow around uninterpreted primitives: the real hash_password/verify_password run on an opaque password of '
             'symbolic length with os.urandom returning arbitrary bytes, SHA-256/scrypt as uninterpreted functions and base64 as an '
             'invertible opaque encoding. Proven: the right password verifies and verify re-derives with exactly the salt and '
-            'parameters stored in the hash; every other password - a proper prefix, a proper extension, or one whose first differing byte sits at any offset and is followed by any tail, lengths unbounded - verifies only if SHA-256/scrypt collide (uninterpreted functions obey f(a)==f(b) <=> a==b under the collision-freedom switch, with rope equality deciding a==b); each hash draws and embeds its own '
+            'parameters stored in the hash; every other password - a proper prefix, a proper extension, or one whose first differing byte sits at any offset and is followed by any tail, lengths unbounded, or the implementation\'s own intermediate value sha256(p) - verifies only if SHA-256/scrypt collide (uninterpreted functions obey f(a)==f(b) <=> a==b under the collision-freedom switch, with rope equality deciding a==b); each hash draws and embeds its own '
             '16 fresh random bytes; for every hash string of 0..6 arbitrary fields the outcome is False, ValueError or TypeError, '
             'and True only when the four fields decoded and the KDF comparison itself matched.',
             'Trusted/assumed: everything cryptographic (SHA-256 and scrypt are uninterpreted; "every other password does not '
@@ -99,10 +99,9 @@ CLAIMED = {
             'symbolic between chars and 4*chars), enum members by symbolic index. The real serialize_value and Serializable.loadb '
             'run through the BytesIO/struct models; proven per path: deep equality (tuples as lists), stream position == len(encoding), '
             'trailing bytes untouched, two concatenated encodings decode in sequence, and a refusal only for values outside the '
-            'documented domain.',
+            'documented domain. Message classes derived from another message class decode to their own class for every order of first use (L13.2); list/set/dict are refused exactly above MAX_ARRAY_LENGTH and round-trip up to it (constant lowered to 2/4 for the unrolling, L13.3).',
             'Trusted: sx engine, struct/BytesIO models, rope/text equality, float32 packing as an uninterpreted token. Bounds: type trees '
-            'of depth <= 2 plus a selection of depth 3, container arity <= 2 (thorough 3); the MAX_ARRAY_LENGTH refusal is not exercised '
-            '(collections are concrete-length).',
+            'of depth <= 2 plus a selection of depth 3, container arity <= 2 (thorough 3); MAX_ARRAY_LENGTH is exercised with the constant lowered (L13.3). Fields inherited from another message class are not part of a class\'s wire format (library design) and are not compared.',
             'DESIGN.md §6 C13'),
     'C14': ('n fully symbolic bytes are decoded by the real deserialize_value with the real registry (no stubs): on every path '
             'the decoder returns a value built from supported/registered types or raises an ordinary Exception, within a step bound '
@@ -121,13 +120,13 @@ CLAIMED = {
             'symbolic NaN flag, Bool terms, enum members by symbolic index). The real toJson/fromJson/dumps/loads are executed; '
             'json.dumps/loads are modelled as the identity on plain JSON data with object keys stringified (str(int) <-> int(str) '
             'inverse) and a TypeError exactly where json.dumps would refuse. Proven per path: field-wise deep equality for both '
-            'routes, containers come back with their annotated type, toJson yields only dict/list/str/int/float/bool/None.',
+            'routes, containers come back with their annotated type, toJson yields only dict/list/str/int/float/bool/None; ten ordered pairs of classes that use the same field name with different annotations round-trip one after the other exactly as alone (L15.2).',
             'Trusted: sx engine, the json model (its contract is the documented behaviour of the json module on plain data). '
             'Outside: bytes fields (not JSON), lower-case enum member names (documented), Tuple[T, ...], more than one level of generics.',
             'DESIGN.md §6 C15'),
     'C05': ('Liveness is decomposed into safety/progress lemmas, each decided by the solver on the real code with symbolic payload '
-            'length, MTU, clock, timeouts and send times: both send_guaranteed APIs accept every length and queue messages that '
-            'reassemble to the payload with a retry obligation; the queue drains one datagram per tick for every length and MTU '
+            'length, MTU, clock, timeouts and send times: both send_guaranteed APIs, UdpClient.send with RETRY_ON_TIMEOUT and with its default mode accept every length and queue messages that '
+            'reassemble to the payload with a retry obligation; every MTU is set after an optional earlier setMTU call with another arbitrary value; the queue drains one datagram per tick for every length and MTU '
             '(no size is left unsent); a guaranteed message is always queued, in flight or acknowledged and a timeout re-queues the '
             'identical (seq, type, payload); every datagram older than the message timeout is resolved by the next tick (client and '
             'server variants) and none earlier; a genuine fresh datagram delivers all its messages through the real codec, and a message that was not received before is delivered at any ring offset from an arbitrary message window (late retransmissions); a bounded '
@@ -146,7 +145,7 @@ CLAIMED = {
             'counting is proven on the real send/_build_packet/_handle_ack/_handle_timeout for unretried sends (the callback lives in '
             'exactly one place and fires once), for guaranteed sends carried by several datagrams because the round trip exceeds the '
             'resend interval (every ack/timeout/pending combination: exactly once, True), and for fragmented sends (once, after all '
-            'fragments are resolved). That the peer accepted what it acknowledged: one receive step from an arbitrary 256-bit message window proves that a datagram the receiver accepts (hence acks) delivers its never-before-received message whatever the distance of its message seq from the newest one seen (L7.4); the rest is C01 (headers authenticated) and C08 (ack '
+            'fragments are resolved). That the peer accepted what it acknowledged: one receive step from an arbitrary 256-bit message window proves that a datagram the receiver accepts (hence acks) delivers its never-before-received message whatever the distance of its message seq from the newest one seen (L7.4); a two-endpoint scenario (guaranteed single / fragmented send, symbolic losses in both directions, then a healed network) shows at every tick that True is reported only once the peer holds the whole message and that the callback fires exactly once (L7.5); the rest is C01 (headers authenticated) and C08 (ack '
             'fields name exactly the received datagrams).',
             'Trusted: sx engine, exact-real clock. Bounds: <= 2 (thorough 3) pending datagrams in the step lemma, 2..3 (4) carrying '
             'datagrams, <= 2 (3) fragments. BEST_EFFORT callbacks are excluded by the statement.',
@@ -158,7 +157,7 @@ CLAIMED = {
             'received message seq (APP or APP_FRAGMENT, any offset) is proven not to deliver or store it again, except in the open '
             'known finding F4b (more than 256 newer messages in between), whose complement is proven; a bounded two-endpoint scenario '
             'delivers three recorded datagrams (any retry modes, piggy-backed retransmissions) in every order with repeats; both timeout re-queue paths (RetrySender, FragmentSender.callback) are proven to re-queue the identical message under its original message sequence number. '
-            'Violations are replayed through the public API (deliver, d newer datagrams, deliver again).',
+            'Violations are replayed through the public API (deliver, d newer datagrams, deliver again). The application-facing ends are covered too: UdpClient.hasMessages/getMessage/getMessages hand each delivered message out once for every mix of the getters (L4.5), and the real server loop hands each message of a batch to the handler at most once whatever subset of them the handler raises on (L4.6).',
             'Trusted: sx engine, ideal AEAD, C08 (window exactness inside the window). Retransmission identity (same seq/type/payload) '
             'is C05 L5.4 / C06 L6.4. Bounds: one pending entry in the step lemmas; scenario of 3 datagrams and <= 4 (thorough 6) deliveries.',
             'DESIGN.md §6 C04'),
@@ -170,7 +169,7 @@ CLAIMED = {
             'liveness clock, both windows, queues, pending sends, token, fragments) unchanged, nothing acknowledged, timed out or '
             'delivered, counted as dropped. A second lemma takes a genuine sealed datagram from the real peer object and lets the '
             'attacker rewrite any header field, cut the ciphertext anywhere and append junk: never accepted. Keyless endpoints: '
-            'nothing but the single expected hello is dispatched, no application message or fragment, no status change.',
+            'nothing but the single expected hello is dispatched, no application message or fragment, no status change. At the server gate (real UdpServerThread loop): a forged CRC datagram of any type from the address of a half-open connection that already holds a key leaves the connection object, key, token and status untouched and the genuine handshake completes (L1.4).',
             'Trusted/assumed: AES-GCM is an ideal AEAD and CRC-32 is public (real-world strength of AES-GCM is not shown); sx engine, '
             'struct model. Bounds: <= 2 inner messages, body <= 40 + tail <= 24 bytes (every byte the parser reads is symbolic), one '
             'pending datagram; genuine datagram of one message <= 200 bytes. Identical copies are replays (C04). The server gate is C10/C11.',
@@ -192,8 +191,8 @@ CLAIMED = {
     'C12': ('All times and settings are symbolic reals. Through the real UdpClient.update and ServerClientConnection.update an idle '
             'CONNECTED endpoint is proven to emit a datagram at a tick iff more than the configured keep-alive interval has elapsed and '
             'to restart both send clocks; timedout(T) is proven equivalent to silence >= T and a genuine datagram to reset the '
-            'liveness clock; the client reports DROPPED exactly after more than 5 s of silence; an unanswered connect attempt ends '
-            'DISCONNECTED exactly after the configured timeout, with and without a callback, the callback fired once with False; '
+            'liveness clock; the client reports DROPPED exactly after more than 5 s of silence; an unanswered connect attempt (connect() at an arbitrary instant, then two UdpClient.update ticks at arbitrary later instants) stays CONNECTING until the configured timeout and ends '
+            'DISCONNECTED for good afterwards, with and without a callback, the callback fired once with False; both endpoints taken through the real handshake and then left idle for n ticks stay CONNECTED, emit per keep-alive interval and never call the connect callback again (L12.8); '
             'client setters called before, after or around connect() never raise and the values are observed at the thresholds of the '
             'real emission / timeout paths; an LRA lemma gives keep-alive + tick + jitter < timeout => no timeout between arrivals; configured connection / temp-connection timeouts and keep-alive interval are observed at their thresholds inside the real server loop (L12.7).',
             'The statement\'s "indefinitely" is the induction over emissions (paper step). Trusted: sx engine, exact-real clock, socket/'
@@ -208,7 +207,7 @@ CLAIMED = {
             'through the real code on both sides (real serializers, codec, key derivation calls): both ends hold the same 16-byte key '
             'term and the same token, the challenge response is sealed under that key, exactly one connect event. Promotion of a temp '
             'connection is proven equivalent to: CHALLENGE_RESP type, sealed under this connection\'s key, carrying the issued token; '
-            'other pending handshakes untouched; connect at most once. Two hellos delivered in one connect attempt (forged then forged or genuine, same or new datagram) are judged independently: a refused hello does not weaken the pin. A keyless server-side connection fed one clear-text attacker datagram (any header type, 1-2 inner messages of any type: hello of any protocol version, challenge response with any token, junk) is never promoted, raises no connect event, and starts a key exchange only from the single client hello.',
+            'other pending handshakes untouched; connect at most once. Two hellos delivered in one connect attempt (forged then forged or genuine, same or new datagram) are judged independently: a refused hello does not weaken the pin. A keyless server-side connection fed one clear-text attacker datagram (any header type, 1-2 inner messages of any type: hello of any protocol version, challenge response with any token, junk) is never promoted, raises no connect event, and starts a key exchange only from the single client hello. The pinned key is never replaced by anything a hello carries (asserted for every combination), and survives a reconnect of the same UdpClient: a hello signed by a foreign key is still refused afterwards (L2.5).',
             'Assumed, not shown: hardness of ECDSA/ECDH/HKDF/AES-GCM (ideal models, listed in the evidence); distinct keys have distinct '
             'encodings. The TOFU mode (no pinned key) is excluded by the statement. Reordering/duplication/loss of handshake datagrams '
             'at the server gate is part of C10.',
@@ -221,7 +220,7 @@ CLAIMED = {
             'crossed with handler exceptions in connect/message/disconnect/update and shutdown after tick 4 or 8. On every path: no '
             'exception leaves the loop; per client object connect once, then only its own messages (each at most once), then '
             'disconnect once; starting first, shutdown last; pool empty after shutdown; connect only for a client that completed the '
-            'handshake; B unaffected by A. get_token is decided for every RNG outcome against arbitrary tokens in both pools; the '
+            'handshake; a client that sent DISCONNECT leaves the pool within a few ticks, not only at shutdown; B unaffected by A. get_token is decided for every RNG outcome against arbitrary tokens in both pools; the '
             'reactor-thread entry points are proven never to reach a handler method.',
             'Threads: the engine is single-threaded; "all handler events on one thread" is replaced by the containment lemma (entry points '
             'never call the handler; every other call site is inside run()). Trusted: sx engine, ideal crypto, inert threading/reactor '
@@ -229,8 +228,8 @@ CLAIMED = {
             'addresses, action alphabet and positions as listed in the evidence.',
             'DESIGN.md §6 C10'),
     'C11': ('The real TwistedServer.datagramReceived and the reference socket loop _UdpServer.run are executed on arbitrary bytes of every length up to the receive size (short '
-            'symbolic prefixes, 20 symbolic header bytes + opaque rest, fully opaque) from an arbitrary host string (z3 string) with an arbitrary block list (two symbolic entries + one fixed): they never raise, never reply, and for a '
-            'block-listed address neither queue nor wake the loop. The unmodified server loop (driver of C10) runs with an '
+            'symbolic prefixes, 20 symbolic header bytes + opaque rest, fully opaque) from an arbitrary host string (z3 string) with an arbitrary block list (two symbolic entries + one fixed): they never raise, never reply, for a '
+            'block-listed address neither queue nor wake the loop, and a well-formed datagram from any other host is handed to the server thread. The unmodified server loop (driver of C10) runs with an '
             'established honest client B while address A - unknown, mid-handshake or connected - injects a hostile datagram (forged '
             'header of any type with valid CRC and arbitrary body bytes, a hello carrying arbitrary message bytes, an oversized datagram '
             'of any non-hello type, a truncated copy of a genuine datagram): no exception leaves the loop, the handler lifecycle stays '
